@@ -72,7 +72,10 @@ class C03(core.Check):
             "part of length 6), plus random longer texts (incl. 4-byte characters), plus a systematic stream of texts with the characters "
             "str.splitlines() treats as line boundaries (U+2028, U+2029, FF, VT, CR, U+0085, FS/GS/RS) for the natural-size consistency "
             "of pack(()) / render(()) / rows, plus utf-8 texts ENDING in a 4-byte character at every overflowing width (bytes and str), "
-            "plus utf-8 bytes / euc-jp / ascii texts judged by the oracle only; "
+            "plus bytes/str texts in the wide encodings gbk, big5, uhc, euc-kr built from double-byte characters at the edges of the "
+            "lead/trail byte ranges (lowest/highest lead byte, ASCII-range and high trail bytes) at every width that puts a wrap/clip "
+            "point on each of their bytes, plus euc-jp / ascii texts - all of these judged by the oracle only (utf-8 bytes also by the "
+            "bytes model); "
             "non-trivial = the layout has more than one line, or a shift, or an omitted character; distinct by hash of (case, outcome)")
     trusted_base = [
         "Coq 8.16.1 kernel (coqc; vm_compute used only for closed examples)",
@@ -702,6 +705,52 @@ class C03(core.Check):
             w = rng.choice([1, 2, 2, 3, 3, 4, 5, 6, 7, 8, 10, 13, 20, 41])
             yield self.mk(text, w, rng.choice(WRAPS), rng.choice(ALIGNS))
 
+    WIDE_ENCS = ["gbk", "big5", "uhc", "euc-kr"]     # 'wide' byte encodings; in gbk / big5 / uhc a trail byte may be ASCII
+
+    @staticmethod
+    def dbcs_chars(enc):
+        """double-byte characters of a wide encoding at the edges of its lead / trail byte ranges: lowest and
+        highest lead byte, trail bytes at both ends of the ASCII-range block (0x40..0x7E) and of the high block"""
+        out = []
+        leads = [0x81, 0x82, 0xA1, 0xA4, 0xB0, 0xC8, 0xF9, 0xFD, 0xFE]
+        trails = [0x40, 0x41, 0x5A, 0x5B, 0x5C, 0x61, 0x7A, 0x7E, 0x80, 0x81, 0xA1, 0xFE]
+        for ld in leads:
+            for tr in trails:
+                b = bytes([ld, tr])
+                try:
+                    ch = b.decode(enc)
+                except UnicodeDecodeError:
+                    continue
+                if len(ch) == 1 and ch.encode(enc) == b and _wc(ch) == 2:
+                    out.append(ch)
+        return out
+
+    def wide_encoding_cases(self, rng, full):
+        """bytes (and str) text in wide encodings: every double-byte character class next to ASCII letters, spaces
+        and other double-byte characters, at every width that puts a wrap / clip / cut point at each byte of it"""
+        for enc in self.WIDE_ENCS:
+            chars = self.dbcs_chars(enc)
+            if not chars:
+                continue
+            lo_ascii = [c for c in chars if c.encode(enc)[1] < 0x80]
+            hi = [c for c in chars if c.encode(enc)[1] >= 0x80]
+            picks = (lo_ascii if full else lo_ascii[:: max(1, len(lo_ascii) // 6)]) + (hi if full else hi[:: max(1, len(hi) // 3)])
+            other = (hi or chars)[0]
+            for ch in picks:
+                texts = ["ab" + ch + "cd", ch + ch + "x" + ch, "a" + ch + other + ch + " b" + ch, other + ch + "\n" + ch + "A" + ch]
+                for text in texts:
+                    total = max(len(ln.encode(enc)) for ln in text.split("\n"))
+                    for w in range(1, min(total, 8) + 1):
+                        for wrap in WRAPS:
+                            yield self.mk(text, w, wrap, "left", enc, "bytes")
+                            if full or (w + len(text)) % 3 == 0:
+                                yield self.mk(text, w, wrap, rng.choice(["center", "right"]), enc, "bytes")
+                                yield self.mk(text, w, wrap, "left", enc, "str")
+            for _ in range(400 if full else 60):
+                n = rng.choice([2, 3, 5, 8, 12])
+                text = "".join(rng.choice(chars) if rng.random() < 0.45 else rng.choice("ab @A~ \n") for _ in range(n))
+                yield self.mk(text, rng.choice([1, 2, 3, 4, 5, 7]), rng.choice(WRAPS), rng.choice(ALIGNS), enc, "bytes")
+
     def encoding_cases(self, rng, count):
         """bytes / other encodings: oracle only (and the str+ascii ellipsis '...' against the model too)"""
         for _ in range(count):
@@ -764,6 +813,7 @@ class C03(core.Check):
     def cases(self, rng, tier):
         yield from self.separator_cases(rng, tier != "quick")
         yield from self.fourbyte_tail_cases(rng, tier != "quick")
+        yield from self.wide_encoding_cases(rng, tier != "quick")
         if tier == "quick":
             for n in range(0, 4):
                 yield from self.exhaustive(n)
@@ -815,7 +865,7 @@ C03.level_text = (
     "bytes_layout_is_image: for every str of scalar values the layout of its utf-8 encoding is the image of the str layout under "
     "the boundary map boff; from it bytes_layout_order / _fits / _omits_only_wrap / _omits_only_trim / bytes_rows_eq.  The byte "
     "primitives are proved equal to C11's model of str_util (decode_one arithmetic re-translated every run).  Not in the "
-    "theorems: rendering of bytes text (correspondence + oracle), invalid UTF-8, euc-jp/ascii (oracle only).  The model is hand-written and tied to the code by an exact extracted-model comparison of layout(), "
+    "theorems: rendering of bytes text (correspondence + oracle), invalid UTF-8, the wide encodings (gbk, big5, uhc, euc-kr, euc-jp) and ascii (oracle only).  The model is hand-written and tied to the code by an exact extracted-model comparison of layout(), "
     "rows(), pack((w,)), pack(()), the rendered rows and rows/render at the natural width (about 45k cases per quick run: all strings up to length 3 over "
     "{a, b, space, newline, U+4E16, U+0301} x widths 1..7 x 4 wraps x 3 alignments, a third of length 4, random longer "
     "texts); utf-8 bytes, euc-jp and ascii texts are judged by the independent oracle only.")
